@@ -13,7 +13,7 @@ TECHNIQUE = ('property-based testing: grammar-generated decoded header lists (va
 RULE = ('cases: header list for a request / response / informational / trailer / pushed-request position built '
         'from a conformant skeleton plus 0..3 drawn defects over an adversarial byte alphabet (upper case, six '
         'ASCII whitespace bytes, empty names and values, NUL, 0x80+), encoded as raw HPACK literals, delivered to '
-        'a client or server under validate x normalise x header_encoding in {None, utf-8}; non-trivial = exactly '
+        'a client or server under validate x normalise x header_encoding in {None, utf-8, latin-1}; non-trivial = exactly '
         'one defect (one step from conformant) or conformant with >= 2 cookie fields; distinct by concrete trace')
 ASSUMPTIONS = ['dont-care zones (either verdict accepted): several Host fields, case variants of "trailers" in TE, '
                'plain CONNECT without :scheme/:path']
@@ -49,7 +49,7 @@ def run_case(data):
     kind = ch.pick(KINDS)
     validate = not ch.chance(40)
     normalize = not ch.chance(64)
-    enc = 'utf-8' if ch.chance(64) else None
+    enc = ch.pick(['utf-8', 'utf-8', 'latin-1']) if ch.chance(80) else None
     if kind == 'request':
         client = False
     elif kind == 'trailers':
